@@ -544,22 +544,10 @@ func TestVerifC19SetEdns0(t *testing.T) {
 	defer tr.f.Close()
 	r := rand.New(rand.NewSource(int64(vC19EnvInt("VERIF_SEED", 1))))
 	n := vC19EnvInt("VERIF_N", 1500)
-	for c := 0; c < n; c++ {
-		p := vC19GenPolicy(r)
-		if r.Intn(4) == 0 && p != nil { // open policy so that forwarding is exercised often
-			p.ClientNetworks = nil
-			p.Enabled = true
-		}
-		client := vC19RandAddr(r, r.Intn(2) == 0)
-		if p != nil && len(p.ClientNetworks) > 0 && r.Intn(2) == 0 {
-			client = p.ClientNetworks[r.Intn(len(p.ClientNetworks))].Masked().Addr()
-		}
-		if r.Intn(20) == 0 {
-			client = netip.Addr{}
-		}
+	run := func(p *ecs.Policy, client netip.Addr, extra []dns.RR, kpfx string) {
 		req := new(dns.Msg)
 		req.SetQuestion("www.example.org.", dns.TypeA)
-		req.Extra = vC19GenExtra(r, p)
+		req.Extra = extra
 		before := vC19Extra(req.Extra)
 		snap, leftovers, nopt := vC19SnapECS(req.Extra)
 		var bdesc []string
@@ -595,8 +583,31 @@ func TestVerifC19SetEdns0(t *testing.T) {
 		for _, rr := range req.Extra {
 			adesc = append(adesc, rr.String())
 		}
-		tr.emit(map[string]any{"k": k, "coq": fmt.Sprintf("CaseSetEdns0 %s %s %s %s", vC19Policy(p), vC19Addr(client), before, after),
+		tr.emit(map[string]any{"k": kpfx + k, "coq": fmt.Sprintf("CaseSetEdns0 %s %s %s %s", vC19Policy(p), vC19Addr(client), before, after),
 			"go_fail": goFail, "fkey": fkey, "nontrivial": len(snap) > 0 || nopt > 0,
 			"desc": map[string]any{"policy": fmt.Sprintf("%+v", p), "client": client.String(), "extra_before": bdesc, "extra_after": adesc}})
+	}
+	// the witness of Properties.all_client_options_stripped_refuted, replayed on the real code
+	{
+		o1 := &dns.OPT{Hdr: dns.RR_Header{Name: ".", Rrtype: dns.TypeOPT}}
+		o1.Option = []dns.EDNS0{&dns.EDNS0_SUBNET{Code: dns.EDNS0SUBNET, Family: 1, SourceNetmask: 32, Address: net.IP{203, 0, 113, 77}},
+			&dns.EDNS0_COOKIE{Code: dns.EDNS0COOKIE, Cookie: "0011223344556677"}}
+		o2 := &dns.OPT{Hdr: dns.RR_Header{Name: ".", Rrtype: dns.TypeOPT}}
+		run(nil, netip.Addr{}, []dns.RR{o1, o2}, "replay-two-opt-")
+	}
+	for c := 0; c < n; c++ {
+		p := vC19GenPolicy(r)
+		if r.Intn(4) == 0 && p != nil { // open policy so that forwarding is exercised often
+			p.ClientNetworks = nil
+			p.Enabled = true
+		}
+		client := vC19RandAddr(r, r.Intn(2) == 0)
+		if p != nil && len(p.ClientNetworks) > 0 && r.Intn(2) == 0 {
+			client = p.ClientNetworks[r.Intn(len(p.ClientNetworks))].Masked().Addr()
+		}
+		if r.Intn(20) == 0 {
+			client = netip.Addr{}
+		}
+		run(p, client, vC19GenExtra(r, p), "")
 	}
 }
